@@ -913,3 +913,51 @@ pub fn gen_crowd(rng: &mut Rng) -> (Program, Strategy) {
     };
     (p, Strategy::Script { segs, cur: 0, hits: 0 })
 }
+
+/// Helper crowd (C10): many more threads than ordinary programs have arrive at a table that is
+/// about to grow - each inserts one or two fresh keys, so that all of them meet the resize
+/// (initiator race, helpers joining and leaving, bins claimed one stride at a time with the
+/// smallest stride) - on a 16-bin table at its threshold, a 64-bin table with a tree bin at its
+/// threshold, or a tiny table that runs through several generations.
+pub fn gen_helper_crowd(rng: &mut Rng) -> Program {
+    let shape = *rng.pick(&[Shape::AtThreshold, Shape::AtThreshold, Shape::TreeAtThreshold, Shape::Tiny]);
+    let so = make_shape(rng, shape, &[]);
+    let nthreads = *rng.pick(&[9usize, 12, 16, 24, 33, 38]);
+    let mut threads = Vec::new();
+    let mut vid = 1u32;
+    let mut fresh = 400_000u32;
+    for _ in 0..nthreads {
+        let mut ops = Vec::new();
+        for _ in 0..rng.range(1, 2) {
+            vid += 1;
+            let k = if !so.fresh.is_empty() && rng.chance(1, 3) {
+                *rng.pick(&so.fresh)
+            } else {
+                fresh += 1;
+                fresh
+            };
+            ops.push(match rng.below(8) {
+                0 => Op::TryInsert(k, vid),
+                1 => Op::Reserve(rng.range(1, 40) as u32),
+                2 if !so.existing.is_empty() => Op::Get(*rng.pick(&so.existing)),
+                _ => Op::Insert(k, vid),
+            });
+        }
+        threads.push(ops);
+    }
+    let facade = (0..nthreads).map(|_| if rng.chance(1, 3) { Facade::Pinned } else { Facade::Guarded }).collect();
+    Program {
+        cfg: Config {
+            hash: so.hash,
+            capacity: so.capacity,
+            batch: *rng.pick(&[1u32, 8, 120]),
+            set: false,
+            ncpu: Some(*rng.pick(&[1u32, 8, 64])),
+            min_stride: Some(*rng.pick(&[1u32, 1, 2])),
+            prepop: so.prepop,
+            preremove: so.preremove,
+            facade,
+        },
+        threads,
+    }
+}
